@@ -105,28 +105,68 @@ pub fn apply(op: &Op) {
             }
             // the RcBox allocated by make_mut belongs to the next object id
             let prev = arena::set_ctx(if shared_branch || move_branch { CtxKind::New } else { CtxKind::Consume }, next, 0);
-            let (new_addr, new_vaddr, id_seen) = {
-                // take the handle out of the root list for the duration of the call
-                let mut lr = wd.roots.borrow_mut().remove(i);
-                let res = {
-                    let r: &mut Node = lib(|| Rc::make_mut(&mut *lr.h));
-                    let id_seen = r.id.get();
-                    if move_branch {
-                        // rename the moved value in place through the &mut we were given
-                        r.rename(next);
-                    }
-                    id_seen
-                };
-                let out = (Rc::__verif_addr(&lr.h), Rc::as_ptr(&lr.h) as usize, res);
-                wd.roots.borrow_mut().insert(i, lr);
-                out
-            };
+            // The handle is mutably borrowed by make_mut for the duration of the
+            // call: nothing else (destructor scripts!) can name it.  Model it as an
+            // in-flight handle (like a raw pointer: it exists, it is reachable, it
+            // has no path) and take it out of the root lists.
+            let mut lr = wd.roots.borrow_mut().remove(i);
+            {
+                let mut m = wd.model.borrow_mut();
+                m.roots.remove(i);
+                m.raws.push(t);
+            }
+            wd.raws.borrow_mut().push(std::ptr::null());
+            let res = std::panic::catch_unwind(std::panic::AssertUnwindSafe(|| {
+                let r: &mut Node = lib(|| Rc::make_mut(&mut *lr.h));
+                let id_seen = r.id.get();
+                if move_branch {
+                    // rename the moved value in place through the &mut we were given
+                    r.rename(next);
+                }
+                id_seen
+            }));
+            let _t = arena::track_off();
             arena::restore_ctx(prev);
             wd.makemut.set(None);
+            wd.raws.borrow_mut().pop();
+            wd.model.borrow_mut().raws.pop();
+            let (new_addr, new_vaddr) = (Rc::__verif_addr(&lr.h), Rc::as_ptr(&lr.h) as usize);
             let old_addr = wd.model.borrow().objs[t as usize].addr;
+            let put_back = |lr: LoggedRc, target: Oid| {
+                let mut lr = lr;
+                lr.target = target;
+                let k = i.min(wd.model.borrow().roots.len());
+                wd.model.borrow_mut().roots.insert(k, target);
+                wd.roots.borrow_mut().insert(k, lr);
+            };
+            let id_seen = match res {
+                Ok(id) => id,
+                Err(e) => {
+                    // a destructor panicked inside make_mut: only possible while the
+                    // clone branch drops the caller's old handle.  The caller's handle
+                    // must now be the fresh clone (C11: nothing the program holds is
+                    // corrupted); put it back and let the panic reach the op handler.
+                    let new = wd.makemut_new.get();
+                    if shared_branch && new != NONE {
+                        on_hdrop_end(t, true);
+                        {
+                            let mut m = wd.model.borrow_mut();
+                            m.objs[new as usize].addr = new_addr;
+                            m.objs[new as usize].value_addr = new_vaddr;
+                        }
+                        wd.addr2oid.borrow_mut().push((new_addr, new));
+                        count(ctr::OBJECTS, 1);
+                        put_back(lr, new);
+                    } else {
+                        put_back(lr, t);
+                    }
+                    std::panic::resume_unwind(e);
+                }
+            };
             if shared_branch {
                 let new = wd.makemut_new.get();
                 if new == NONE || new_addr == old_addr {
+                    put_back(lr, t);
                     violate(View::Consume, &format!("make_mut on shared object {} did not clone the value into a new allocation", t));
                 }
                 // close the bracket of the implicit drop of the old handle
@@ -137,13 +177,14 @@ pub fn apply(op: &Op) {
                     m.objs[new as usize].value_addr = new_vaddr;
                 }
                 wd.addr2oid.borrow_mut().push((new_addr, new));
-                wd.roots.borrow_mut()[i].target = new;
+                put_back(lr, new);
                 if id_seen != new {
                     violate(View::Consume, "make_mut returned a reference to the wrong value");
                 }
                 count(ctr::OBJECTS, 1);
             } else if move_branch {
                 if new_addr == old_addr {
+                    put_back(lr, t);
                     violate(View::Consume, &format!("make_mut on sole owner {} with Weak handles did not disassociate them", t));
                 }
                 if id_seen != t {
@@ -158,10 +199,10 @@ pub fn apply(op: &Op) {
                 let new = move_value(t, false, new_addr, new_vaddr);
                 assert_eq!(new, next);
                 wd.addr2oid.borrow_mut().push((new_addr, new));
-                wd.model.borrow_mut().roots[i] = new;
-                wd.roots.borrow_mut()[i].target = new;
+                put_back(lr, new);
                 count(ctr::OBJECTS, 1);
             } else {
+                put_back(lr, t);
                 if new_addr != old_addr || id_seen != t {
                     violate(View::Consume, &format!("make_mut on unique object {} changed its allocation", t));
                 }
